@@ -11,6 +11,7 @@ EXPLANATION = (
     "(2) captured state is immutable — (b) B-tree mutators reachable from reader-visible roots write only freshly allocated pages "
     "(provenance of every Pager::write_page target), (c) snapshot read methods acquire no lock of live mutable engine state; "
     "(3) snapshot types expose no `&mut self` method and no public field. It does not decide actual interleavings."
+    " C03.2d: no online engine operation reaches Pager::free_page. C03.4: order protocol for the roots captured by value — snapshot constructors read published_runs before loading properties_root / stats_root, compaction stores those roots before replacing published_runs."
 )
 
 SNAP_TYPES = ("nervusdb_storage::snapshot::Snapshot", "nervusdb_storage::api::StorageSnapshot",
